@@ -213,15 +213,16 @@ PutDropped(e) ==
 
 \* as built: calls on a writer whose earlier Close failed (descriptor already closed, writer object still in
 \* use): entries go into its buffer, every flush / sync / close fails, nothing reaches the file
-WedgedFail(name) ==
+\* (hit: a fault was injected into an operation the dead writer attempted - it fails anyway)
+WedgedFail(name, hit) ==
   /\ Quiescent /\ w.open /\ w.wedged
-  /\ call' = Failed(name) /\ cnt' = [cnt EXCEPT !.calls = @ + 1]
+  /\ call' = [Failed(name) EXCEPT !.faulted = hit] /\ cnt' = [cnt EXCEPT !.calls = @ + 1]
   /\ UNCHANGED <<disk, w, pend, ref, fm, dur, bmaps, crashobs>>
-CloseWedged == WedgedFail("close")
-PutWedged(e, fl, told) ==
+CloseWedged == WedgedFail("close", FALSE)
+PutWedged(e, fl, told, hit) ==
   /\ Quiescent /\ w.open /\ w.wedged
   /\ ref' = ApplyE(ref, e)
-  /\ call' = [name |-> "put", res |-> IF fl THEN "err" ELSE "ok", pre |-> ref, faulted |-> FALSE, told |-> told]
+  /\ call' = [name |-> "put", res |-> IF fl THEN "err" ELSE "ok", pre |-> ref, faulted |-> hit, told |-> told]
   /\ cnt' = [cnt EXCEPT !.writes = @ + 1]
   /\ UNCHANGED <<disk, w, pend, fm, dur, bmaps, crashobs>>
 
@@ -237,18 +238,18 @@ DiskAfter(op) ==
     [] op = "hdr0"   -> [disk EXCEPT !.hd = IF Len(pend) > 1 /\ pend[2] = "name" THEN 1 ELSE 2]
     [] op = "name"   -> [disk EXCEPT !.hd = 2]
     [] op = "trunc"  -> [disk EXCEPT !.ch = DropLast(@)]
-    [] op = "bh"     -> IF w.pos = "mis" THEN disk
+    [] op = "bh"     -> IF w.pos = "mis" THEN disk     \* (FileStep adds: the file header may be overwritten)
                         ELSE [disk EXCEPT !.ch = Append(@, [BlockOf(w.cur) EXCEPT !.t = "tbh"])]
     [] op = "pay"    -> IF w.pos = "mis" THEN disk
                         ELSE [disk EXCEPT !.ch = SetLast(@, [@[Len(@)] EXCEPT !.t = "blk"])]
-    [] op \in {"hdr", "shdr", "chdr"} -> [disk EXCEPT !.nb = w.nb, !.ne = w.ne]
+    [] op \in {"hdr", "shdr", "chdr"} -> [disk EXCEPT !.nb = w.nb, !.ne = w.ne, !.hd = IF @ = 0 THEN 2 ELSE @]
     [] OTHER -> disk
 
 \* images a torn (partial) execution of op can leave; {} if the operation writes no bytes
 TornImages(op) ==
   CASE op = "hdr0" -> {disk}                                   \* fewer than 64 bytes: hd stays 0
     [] op = "name" -> {disk}                                   \* hd stays 1
-    [] op = "bh"   -> IF w.pos = "mis" THEN {disk, [disk EXCEPT !.clob = TRUE]}
+    [] op = "bh"   -> IF w.pos = "mis" THEN {disk, [disk EXCEPT !.clob = TRUE], [disk EXCEPT !.hd = 0]}
                       ELSE {[disk EXCEPT !.ch = Append(@, [BlockOf(w.cur) EXCEPT !.t = "tbh"])]}
     [] op = "pay"  -> IF w.pos = "mis" THEN {disk, [disk EXCEPT !.clob = TRUE]}
                       ELSE {[disk EXCEPT !.ch = SetLast(@, [@[Len(@)] EXCEPT !.t = "tpay"])]}
@@ -264,6 +265,8 @@ FileStep ==
      IN
      /\ IF op = "pay" /\ w.pos = "mis"
           THEN disk' \in {disk, [disk EXCEPT !.clob = TRUE]}      \* the block lands inside existing bytes
+          ELSE IF op = "bh" /\ w.pos = "mis"
+          THEN disk' \in {disk, [disk EXCEPT !.hd = 0]}           \* ... or over the file header itself
           ELSE disk' = DiskAfter(op)
      /\ w' = CASE op = "pay"   -> [w EXCEPT !.cur = <<>>, !.nb = @ + 1, !.ne = @ + Count(w.cur)]
                [] op = "trunc" -> [w EXCEPT !.dirty = FALSE]
